@@ -172,7 +172,15 @@ def run_case(case):
         # probe a refused id and an id that was never proposed on fresh associations
         refused = [c[0] for c in got if c[1] != 0][:1]
         unknown = [x for x in (7, 9, 11, 13) if x not in [c[0] for c in ctxs]][:1]
-        for pid in refused + unknown:
+        # a context id that WAS accepted in the association above is proposed again in a new
+        # association, this time for an abstract syntax nobody serves: whatever was negotiated
+        # before must not leak into this association
+        flipped = [c[0] for c in got if c[1] == 0][:1]
+        probes2 = [(pid, ctxs) for pid in refused + unknown]
+        for pid in flipped:
+            ctxs2 = tuple((p_, (UNSERVED if p_ == pid else ab), tss) for p_, ab, tss in ctxs)
+            probes2.append((pid, ctxs2))
+        for pid, pctxs in probes2:
             n0 = len(calls)
 
             def script2(peer2, pid=pid):
@@ -185,12 +193,13 @@ def run_case(case):
                 peer2.read_message(timeout=20.0)
                 if not peer2.eof and not peer2.reset:
                     peer2.send(rc.enc_abort(0, 0))
-            peer2 = peers.ScriptedRequestor(world.sim, world.net, ADDR, ctxs, script=script2)
+            peer2 = peers.ScriptedRequestor(world.sim, world.net, ADDR, pctxs, script=script2)
             t2 = world.spawn(peer2.run, 'probe%d' % pid, role='user')
             world.run(tmax=200)
             world.drain(1.0)
             if len(calls) > n0:
-                v('service-ran-on-%s-context' % ('refused' if pid in refused else 'unproposed'),
+                v('service-ran-on-%s-context' % ('refused' if pid in refused else (
+                    'refused-here-accepted-elsewhere' if pid in flipped else 'unproposed')),
                   'message on id %d reached %r' % (pid, [c[:3] for c in calls[n0:]]))
         return _fin(world, viol, case, ctxs)
     finally:
